@@ -29,7 +29,9 @@ from qiskit_addon_cutting.utils.simulation import simulate_statevector_outcomes,
 
 from common import CaseWriter, Res, Raw, Nc, Qc, call_canon, coq
 
-IMPORTS = "From CKT Require Import Common.Base Common.QSim Model.Sim Corr.C13Corr."
+IMPORTS = ("From Coq Require Import QArith.\nFrom CKT Require Import Common.Base Common.QSim Model.Sim Corr.C13Corr.\n"
+           "Close Scope Q_scope.")
+CASE_TYPES = {"chk_sim": "sim_case", "chk_dist": "res (list (N * Q)) * list (N * Q)"}
 
 G1 = ["x", "y", "z", "h", "s", "sdg", "sx", "sxdg"]
 G2 = ["cx", "cz", "swap"]
@@ -271,7 +273,8 @@ def split_regs(rng, n):
 
 def rand_prog(rng, nq, ncl, length, mode, max_nonunitary):
     """mode: 'uniform' | 'onebit' (all measurements into one clbit) | 'basis' (computational-basis gates only:
-    every branch deterministic) | 'entangle' (GHZ-like prefix) | 'heavy' (mostly measure/reset)"""
+    every branch deterministic) | 'entangle' (GHZ-like prefix) | 'heavy' (mostly measure/reset) |
+    'plus' (h/sx layer first: every first measurement of a qubit branches)"""
     prog = []
     nonu = 0
     onebit = int(rng.integers(0, ncl)) if ncl else 0
@@ -280,9 +283,13 @@ def rand_prog(rng, nq, ncl, length, mode, max_nonunitary):
         for q in range(1, nq):
             if len(prog) < length:
                 prog.append(["g", "cx", [int(rng.integers(0, q)), q]])
+    if mode == "plus":
+        for q in range(nq):
+            if len(prog) < length:
+                prog.append(["g", ["h", "sx", "sxdg"][int(rng.integers(0, 3))], [q]])
     while len(prog) < length:
         r = rng.random()
-        w_meas = 0.45 if mode == "heavy" else 0.22
+        w_meas = 0.45 if mode == "heavy" else 0.27
         w_reset = 0.2 if mode == "heavy" else 0.1
         if nonu >= max_nonunitary:
             w_meas = w_reset = 0.0
@@ -303,7 +310,12 @@ def rand_prog(rng, nq, ncl, length, mode, max_nonunitary):
             a, b = (int(q) for q in rng.permutation(nq)[:2])
             prog.append(["g", names[int(rng.integers(0, len(names)))], [a, b]])
         else:
-            names = ["x", "z", "y"] if mode == "basis" else G1
+            if mode == "basis":
+                names = ["x", "z", "y"]
+            elif rng.random() < 0.5:
+                names = ["h", "h", "sx", "sxdg"]      # superposition-creating gates, so that measurements branch
+            else:
+                names = G1
             prog.append(["g", names[int(rng.integers(0, len(names)))], [int(rng.integers(0, nq))]])
     return prog
 
@@ -338,14 +350,14 @@ def features(case):
 
 
 def generate(rng, tier, outdir):
-    w = CaseWriter(outdir, IMPORTS)
+    w = CaseWriter(outdir, IMPORTS, CASE_TYPES)
     w.SHARD = 200
     quick = tier == "quick"
     n_main = 560 if quick else 6000
     n_bad = 160 if quick else 1500
     n_tol = 160 if quick else 1500
     max_nonu = 7 if quick else 10
-    modes = ["uniform", "uniform", "onebit", "basis", "entangle", "heavy"]
+    modes = ["uniform", "uniform", "onebit", "basis", "entangle", "heavy", "plus", "plus"]
 
     # ---------------- main stream: exactly representable circuits ----------------
     fixed = [
@@ -364,7 +376,7 @@ def generate(rng, tier, outdir):
             case["qregs"], case["cregs"] = [case["nq"]], ([case["ncl"]] if case["ncl"] else [])
         else:
             nq = int(rng.integers(1, 6))
-            ncl = int(rng.integers(0, 6))
+            ncl = 0 if rng.random() < 0.07 else int(rng.integers(1, 6))
             length = int(rng.integers(0, 21))
             mode = modes[int(rng.integers(0, len(modes)))]
             case = dict(nq=nq, ncl=ncl, qregs=split_regs(rng, nq), cregs=split_regs(rng, ncl),
@@ -481,7 +493,7 @@ def generate(rng, tier, outdir):
     return w.finish(
         rule="sim: random circuits on 1..5 qubits, 0..5 clbits (1-2 registers each), 0..20 instructions over "
         "{x,y,z,h,s,sdg,sx,sxdg,cx,cz,swap,measure,reset,barrier} in modes uniform / all measurements into one bit / "
-        "computational-basis only (deterministic branches) / GHZ prefix (entangled measurements) / measure-reset heavy, plus "
+        "computational-basis only (deterministic branches) / GHZ prefix (entangled measurements) / measure-reset heavy / h-sx layer first, plus "
         "fixed seeds; both simulate_statevector_outcomes and ExactSampler are recorded; the Coq checker evaluates the model "
         "instantiated with QSim (exact Q(sqrt2)(i) amplitudes), compares keys in dict order exactly and probabilities within 1e-12, "
         "audits that every measured QSim probability is an exact rational, and requires the harness's density-matrix oracle to agree. "
